@@ -2296,6 +2296,18 @@ func (c *fctx) binop(op token.Token, t ty, a, b string, rt ty, p token.Pos) stri
 		if fn != "" {
 			return fmt.Sprintf("(%s %d %s %s)", fn, t.bits, a, b)
 		}
+		if op == token.SHL {
+			// k << c on a signed integer: multiplication by 2^c with wrap-around (c >= 0: Go panics on a negative count)
+			cnt := b
+			switch rt.k {
+			case kSInt:
+			case kUInt:
+				cnt = fmt.Sprintf("(Z.of_N %s)", b)
+			default:
+				c.fail(p, "shift count of this type")
+			}
+			return fmt.Sprintf("(go_sshl %d %s %s)", t.bits, a, cnt)
+		}
 	case kUInt:
 		fn := map[token.Token]string{token.ADD: "go_uadd", token.SUB: "go_usub", token.MUL: "go_umul", token.QUO: "go_udiv", token.REM: "go_urem",
 			token.AND: "go_uand", token.OR: "go_uor", token.XOR: "go_uxor", token.AND_NOT: "go_uandnot"}[op]
